@@ -10,7 +10,6 @@ namespace H2V.Lemmas.ConnFidP
 open H2V H2V.Model H2V.Model.Conn H2V.Lemmas.ConnWakeP
 
 def Lbl.isWrite : Lbl → Bool
-  | .pop _ _ => true
   | .unpop _ _ => true
   | .mark _ => true
   | _ => false
@@ -21,11 +20,9 @@ def gstepO (s : Streams) (l : Option Lbl) (g : Ghost) : Ghost :=
   | none => g
   | some l => gstep s l g
 
-theorem gstep_emi (s : Streams) (l : Lbl) (g : Ghost) : (gstep s l g).emi = g.emi := by
-  cases l <;> simp only [gstep] <;> (try rfl) <;> split <;> rfl
-
-theorem gstepO_emi (s : Streams) (l : Option Lbl) (g : Ghost) : (gstepO s l g).emi = g.emi := by
-  cases l <;> simp only [gstepO]; exact gstep_emi _ _ _
+theorem gstep_emi (s : Streams) (l : Lbl) (g : Ghost) (hl : ∀ k f, l ≠ .pop k f) : (gstep s l g).emi = g.emi := by
+  cases l <;> simp only [gstep] <;> (try rfl) <;> (try (split <;> rfl))
+  next k f => exact absurd rfl (hl k f)
 
 section
 variable {l : Option Lbl} {s s' : Streams} {h : Option DataFrame} {g : Ghost}
@@ -82,33 +79,42 @@ end
 
 /-- the ghost changes only at entries that exist -/
 theorem gstep_other (s : Streams) (l : Lbl) (g : Ghost) (k : Nat) (hk : s.store.get? k = none)
-    (hp : ∀ j f, l = .push j f → (s.store.get? j).isSome = true) :
-    (gstep s l g).acc k = g.acc k ∧ (gstep s l g).cut k = g.cut k := by
+    (hp : ∀ j, l.key? = some j → l.isCut = false → (s.store.get? j).isSome = true) :
+    (gstep s l g).acc k = g.acc k ∧ (gstep s l g).cut k = g.cut k ∧ (gstep s l g).emi k = g.emi k := by
   cases l with
   | push j f =>
     simp only [gstep]
     split
     · have : k ≠ j := by
         intro e; subst e
-        have := hp k f rfl
+        have := hp k rfl rfl
         rw [hk] at this; cases this
-      exact ⟨upd_other _ _ this, rfl⟩
-    · exact ⟨rfl, rfl⟩
+      exact ⟨upd_other _ _ this, rfl, rfl⟩
+    · exact ⟨rfl, rfl, rfl⟩
+  | pop j f =>
+    simp only [gstep]
+    split
+    · have : k ≠ j := by
+        intro e; subst e
+        have := hp k rfl rfl
+        rw [hk] at this; cases this
+      exact ⟨rfl, rfl, upd_other _ _ this⟩
+    · exact ⟨rfl, rfl, rfl⟩
   | cut j n =>
     simp only [gstep]
     split
     · next hs =>
       have : k ≠ j := by intro e; subst e; rw [hk] at hs; cases hs
-      exact ⟨rfl, upd_other _ _ this⟩
-    · exact ⟨rfl, rfl⟩
+      exact ⟨rfl, upd_other _ _ this, rfl⟩
+    · exact ⟨rfl, rfl, rfl⟩
   | gone j =>
     simp only [gstep]
     split
     · next hs =>
       have : k ≠ j := by intro e; subst e; rw [hk] at hs; cases hs
-      exact ⟨rfl, upd_other _ _ this⟩
-    · exact ⟨rfl, rfl⟩
-  | _ => exact ⟨rfl, rfl⟩
+      exact ⟨rfl, upd_other _ _ this, rfl⟩
+    · exact ⟨rfl, rfl, rfl⟩
+  | _ => exact ⟨rfl, rfl, rfl⟩
 
 /-- a cut flag is never cleared -/
 theorem gstep_cut_mono (s : Streams) (l : Lbl) (g : Ghost) (k : Nat) (h : g.cut k = true) : (gstep s l g).cut k = true := by
@@ -138,14 +144,46 @@ theorem ref_tau (e : El none s s') (hI : Inv s h g) (k : Nat) :
 /-- … across a labelled step off the write path -/
 theorem ref_lbl (l : Lbl) (e : El (some l) s s') (hw : l.isWrite = false) (hI : Inv s h g)
     (hpush : ∀ k f, l = .push k f → isMsg f = true → g.cut k = false)
-    (hweird : (gstep s l g).weird = false) (k : Nat) :
+    (hweird : (gstep s l g).weird = false) (hpop : ∀ j f, l = .pop j f → h = none) (k : Nat) :
     ∃ D, Refine ((gstep s l g).emi k ++ msg (out s' h k) ++ D) ((gstep s l g).acc k) ∧ ((gstep s l g).cut k = false → D = []) := by
-  rw [gstep_emi]
   obtain ⟨D, hR, hD⟩ := hI.ref k
   have hww : ∀ l', some l = some l' → l'.isWrite = false := by intro l' e'; cases e'; exact hw
   have hinf := inflight_step e hww hI.cp k
   cases l with
+  | pop j f =>
+    have hn := hpop j f rfl
+    subst hn
+    have ho : ∀ t : Streams, out t none k = sq t k := by intro t; unfold out; rw [inflight_none]; rfl
+    rw [ho] at hR ⊢
+    by_cases hj : j = k
+    · subst hj
+      have hv := e.view_pop
+      rw [hv] at hR
+      by_cases hm : isMsg f = true
+      · refine ⟨D, ?_, ?_⟩
+        · simp only [gstep, hm, if_true, upd_same]
+          rw [msg_cons_msg hm] at hR
+          simpa only [List.append_assoc, List.cons_append, List.nil_append] using hR
+        · simp only [gstep, hm, if_true]; exact hD
+      · have hm' : isMsg f = false := by simpa using hm
+        refine ⟨D, ?_, ?_⟩
+        · simp only [gstep, hm']
+          have : msg (f :: sq s' j) = msg (sq s' j) := by simp [msg, hm']
+          rw [this] at hR; exact hR
+        · simp only [gstep, hm']; exact hD
+    · have hs : sq s' k = sq s k := by
+        rcases e.view k with ⟨hg, _⟩ | ⟨hs, _⟩
+        · cases hg
+        · simp only [sendEff, hj, if_false] at hs; exact hs
+      rw [hs]
+      have hk : k ≠ j := fun e' => hj e'.symm
+      refine ⟨D, ?_, ?_⟩
+      · simp only [gstep]; split
+        · simp only [upd_other _ _ hk]; exact hR
+        · exact hR
+      · simp only [gstep]; split <;> exact hD
   | push j f =>
+    rw [gstep_emi _ _ _ (by intro _ _ e'; cases e')]
     have hi : inflight s' h k = inflight s h k := by
       rcases hinf with hi | ⟨n, hl, _⟩
       · exact hi
@@ -179,6 +217,7 @@ theorem ref_lbl (l : Lbl) (e : El (some l) s s') (hw : l.isWrite = false) (hI : 
           · exact hR
         · simp only [gstep]; split <;> exact hD
   | cut j n =>
+    rw [gstep_emi _ _ _ (by intro _ _ e'; cases e')]
     rcases e.view k with ⟨hg, _⟩ | ⟨hs, _⟩
     · cases hg
     · by_cases hj : j = k
@@ -241,6 +280,7 @@ theorem ref_lbl (l : Lbl) (e : El (some l) s s') (hw : l.isWrite = false) (hI : 
           · simp only [upd_other _ _ hk]; exact hD
           · exact hD
   | gone j =>
+    rw [gstep_emi _ _ _ (by intro _ _ e'; cases e')]
     have hi : inflight s' h k = inflight s h k := by
       rcases hinf with hi | ⟨n, hl, _⟩
       · exact hi
@@ -282,10 +322,10 @@ theorem ref_lbl (l : Lbl) (e : El (some l) s s') (hw : l.isWrite = false) (hI : 
       · simp only [gstep]; split
         · simp only [upd_other _ _ hk]; exact hD
         · exact hD
-  | pop j f => simp [Lbl.isWrite] at hw
   | unpop j f => simp [Lbl.isWrite] at hw
   | mark m => simp [Lbl.isWrite] at hw
   | rpush j ev =>
+    rw [gstep_emi _ _ _ (by intro _ _ e'; cases e')]
     have hi : inflight s' h k = inflight s h k := by
       rcases hinf with hi | ⟨n, hl, _⟩
       · exact hi
@@ -296,6 +336,7 @@ theorem ref_lbl (l : Lbl) (e : El (some l) s s') (hw : l.isWrite = false) (hI : 
       · exact hs
     rw [out_congr k hs hi]; exact ⟨D, hR, hD⟩
   | rpop j ev =>
+    rw [gstep_emi _ _ _ (by intro _ _ e'; cases e')]
     have hi : inflight s' h k = inflight s h k := by
       rcases hinf with hi | ⟨n, hl, _⟩
       · exact hi
@@ -306,6 +347,7 @@ theorem ref_lbl (l : Lbl) (e : El (some l) s s') (hw : l.isWrite = false) (hI : 
       · exact hs
     rw [out_congr k hs hi]; exact ⟨D, hR, hD⟩
   | rclear j =>
+    rw [gstep_emi _ _ _ (by intro _ _ e'; cases e')]
     have hi : inflight s' h k = inflight s h k := by
       rcases hinf with hi | ⟨n, hl, _⟩
       · exact hi
@@ -320,16 +362,16 @@ theorem ref_lbl (l : Lbl) (e : El (some l) s s') (hw : l.isWrite = false) (hI : 
 /-- **`Inv` across one elementary step off the write path** -/
 theorem El.inv (lo : Option Lbl) (e : El lo s s') (hw : ∀ l, lo = some l → l.isWrite = false) (hI : Inv s h g)
     (hpush : ∀ k f, lo = some (.push k f) → isMsg f = true → g.cut k = false)
-    (hweird : (gstepO s lo g).weird = false) : Inv s' h (gstepO s lo g) := by
-  have hpres : ∀ l, lo = some l → ∀ j f, l = .push j f → (s.store.get? j).isSome = true := by
-    intro l hl j f hjf; subst hjf; exact e.pres _ j hl rfl rfl
+    (hweird : (gstepO s lo g).weird = false) (hpop : ∀ j f, lo = some (.pop j f) → h = none) :
+    Inv s' h (gstepO s lo g) := by
   -- the ghost at a key that has no entry
-  have hgo : ∀ k, s.store.get? k = none → (gstepO s lo g).acc k = g.acc k ∧ (gstepO s lo g).cut k = g.cut k := by
+  have hgo : ∀ k, s.store.get? k = none → (gstepO s lo g).acc k = g.acc k ∧ (gstepO s lo g).cut k = g.cut k ∧
+      (gstepO s lo g).emi k = g.emi k := by
     intro k hk
     cases lo with
-    | none => exact ⟨rfl, rfl⟩
-    | some l => exact gstep_other s l g k hk (hpres l rfl)
-  refine ⟨e.keysBelow hI.kb, Coupled.step e hw hI.cp, ?_, ?_, ?_, ?_, ?_⟩
+    | none => exact ⟨rfl, rfl, rfl⟩
+    | some l => exact gstep_other s l g k hk (fun j hj hc => e.pres l j rfl hj hc)
+  refine ⟨e.keysBelow hI.kb, Coupled.step e hw hI.cp, ?_, ?_, ?_, ?_, ?_, ?_⟩
   · intro k hk
     rcases inflight_step e hw hI.cp k with hi | ⟨_, _, _, hi⟩
     · rw [hi] at hk; exact Nat.lt_of_lt_of_le (hI.inflLt k hk) e.nk
@@ -341,12 +383,13 @@ theorem El.inv (lo : Option Lbl) (e : El lo s s') (hw : ∀ l, lo = some l → l
       cases ha : s.store.get? k with
       | none => rfl
       | some a => exact absurd (hI.kb k a ha) (Nat.not_lt.mpr hk0)
-    obtain ⟨e1, e2⟩ := hgo k hab
-    exact ⟨e1.trans h1, by rw [gstepO_emi]; exact h2, e2.trans h3⟩
+    obtain ⟨e1, e2, e3⟩ := hgo k hab
+    exact ⟨e1.trans h1, e3.trans h2, e2.trans h3⟩
   · intro k
     cases lo with
     | none => exact ref_tau e hI k
-    | some l => exact ref_lbl l e (hw l rfl) hI (fun k f hl => hpush k f (by rw [hl])) hweird k
+    | some l =>
+      exact ref_lbl l e (hw l rfl) hI (fun k f hl => hpush k f (by rw [hl])) hweird (fun j f hl => hpop j f (by rw [hl])) k
   · intro k hc b hb
     rcases e.back hb with ⟨a, ha, es⟩ | ⟨hn, hk⟩
     · by_cases hg : g.cut k = true
@@ -378,8 +421,9 @@ theorem El.inv (lo : Option Lbl) (e : El lo s s') (hw : ∀ l, lo = some l → l
                 exact absurd (this ▸ hc) hg
               · exact absurd hc hg
           | push j f => simp only [gstepO, gstep] at hc; split at hc <;> exact absurd hc hg
+          | pop j f => simp only [gstepO, gstep] at hc; split at hc <;> exact absurd hc hg
           | _ => exact absurd hc hg
-    · have := (hgo k hn).2
+    · have := (hgo k hn).2.1
       rw [this, (hI.ghostKey k hk).2.2] at hc; cases hc
   · intro k hk
     have hk0 : inflight s h k ≠ [] := by
@@ -387,6 +431,38 @@ theorem El.inv (lo : Option Lbl) (e : El lo s s') (hw : ∀ l, lo = some l → l
       · rw [hi] at hk; exact hk
       · exact absurd hi hk
     rcases hI.infl k hk0 with hp | hc
+    · obtain ⟨a, ha⟩ := Option.isSome_iff_exists.mp hp
+      rcases e.keep k a ha with ⟨b, hb, _⟩ | ⟨_, hl⟩
+      · exact Or.inl (by rw [hb]; rfl)
+      · subst hl
+        exact Or.inr (by simp [gstepO, gstep, ha])
+    · refine Or.inr ?_
+      cases lo with
+      | none => exact hc
+      | some l => exact gstep_cut_mono s l g k hc
+  · intro k hk
+    -- something emitted from `k`: before this step (then `k` exists or was cut), or by this very pop (then it exists)
+    have hpre : (s.store.get? k).isSome = true ∨ g.cut k = true := by
+      by_cases h0 : g.emi k = []
+      · cases lo with
+        | none => exact absurd h0 hk
+        | some l =>
+          cases l with
+          | pop j f =>
+            by_cases hj : j = k
+            · subst hj; exact Or.inl (e.pres _ j rfl rfl rfl)
+            · exfalso; apply hk
+              simp only [gstepO, gstep]
+              split
+              · show upd g.emi j (g.emi j ++ [f]) k = []
+                rw [upd_other _ _ (fun e' => hj e'.symm)]; exact h0
+              · exact h0
+          | _ =>
+            exfalso; apply hk
+            simp only [gstepO]
+            rw [gstep_emi _ _ _ (by intro _ _ e'; cases e')]; exact h0
+      · exact hI.live k h0
+    rcases hpre with hp | hc
     · obtain ⟨a, ha⟩ := Option.isSome_iff_exists.mp hp
       rcases e.keep k a ha with ⟨b, hb, _⟩ | ⟨_, hl⟩
       · exact Or.inl (by rw [hb]; rfl)
